@@ -10,6 +10,8 @@ import FontVerif.Lemmas.Cmap
 import FontVerif.Lemmas.Cmap4
 import FontVerif.Lemmas.Cmap4Seg
 import FontVerif.Lemmas.Cmap4Top
+import FontVerif.Lemmas.CmapNorm
+import FontVerif.Lemmas.CmapTop
 set_option linter.unusedVariables false
 namespace FontVerif.C08
 open FontVerif FontVerif.Cmap
@@ -97,37 +99,8 @@ In particular every unmapped code point (and every code point above U+FFFF) gets
 theorem fmt4_lookup_any_segmentation (m : Mapping) (hd : InDomain m) (segs : List Seg)
     (hv : SegsTile (cpAt m.toArray) (gidAt m.toArray) 0 (bmpPrefix m).length segs)
     (t : Cmap4) (h : encode4 m segs = .ok (some t)) (c v : Nat) :
-    map4 t c = some v ↔ ((c, v) ∈ m ∧ c ≤ 0xFFFF) ∨ (c = 0xFFFF ∧ v = 0) := by
-  have hm := mapOk_of_inDomain m hd
-  have hne : segs ≠ [] := by
-    intro h0; subst h0
-    unfold encode4 at h
-    split at h
-    · cases h
-    · simp at h
-  rcases encode4_rows m segs (fun p hp => (hd.gid p hp).2) hne with htrap | ⟨rows, g, hok, hr⟩
-  · rw [htrap] at h; cases h
-  rw [hok] at h
-  injection h with h
-  injection h with h
-  subst h
-  rw [mem_iff_index m hd c v]
-  constructor
-  · intro hq
-    by_cases hc : c = 0xFFFF
-    · subst hc
-      rw [map4_sentinel hm hv hr] at hq
-      exact Or.inr ⟨rfl, (Option.some.inj hq).symm⟩
-    · by_cases hex : ∃ k, k < (bmpPrefix m).length ∧ cpAt m.toArray k = c
-      · obtain ⟨k, hk, hck⟩ := hex
-        rw [← hck, map4_mapped hm hv hr k hk] at hq
-        exact Or.inl ⟨k, hk, hck, Option.some.inj hq⟩
-      · rw [map4_unmapped hm hv hr c hc (fun k hk hck => hex ⟨k, hk, hck⟩)] at hq
-        cases hq
-  · rintro (⟨k, hk, hck, hgk⟩ | ⟨rfl, rfl⟩)
-    · rw [← hck, ← hgk]
-      exact map4_mapped hm hv hr k hk
-    · exact map4_sentinel hm hv hr
+    map4 t c = some v ↔ ((c, v) ∈ m ∧ c ≤ 0xFFFF) ∨ (c = 0xFFFF ∧ v = 0) :=
+  encode4_lookup m hd segs hv t h c v
 
 /-- Round trip through `create_format_4` as implemented (segment computer + encoder) and
 `Cmap4::map_codepoint`: the mapped glyph for every mapped BMP character, glyph 0 for U+FFFF,
@@ -153,51 +126,15 @@ theorem fmt4_lookup_unmapped (m : Mapping) (hd : InDomain m) (t : Cmap4) (h : cr
 
 /-- "Returns `None` if none of the input chars are in the BMP" — and only then -/
 theorem fmt4_none_iff (m : Mapping) (hd : InDomain m) :
-    createFormat4 m = .ok none ↔ ∀ p ∈ m, p.1 > 0xFFFF := by
-  have hsz : segments m = [] ↔ bmpPrefix m = [] := by
-    unfold segments
-    rw [computeSegs_nil_iff]
-    simp
-  have hpre : bmpPrefix m = [] ↔ ∀ p ∈ m, p.1 > 0xFFFF := by
-    rw [List.eq_nil_iff_forall_not_mem]
-    constructor
-    · intro h p hp
-      have := h p
-      rw [mem_bmpPrefix m hd.asc] at this
-      rcases Nat.lt_or_ge 0xFFFF p.1 with h' | h'
-      · exact h'
-      · exact absurd ⟨hp, h'⟩ this
-    · intro h p hp
-      rw [mem_bmpPrefix m hd.asc] at hp
-      have := h p hp.1
-      omega
-  rw [← hpre, ← hsz]
-  constructor
-  · intro h
-    by_cases hne : segments m = []
-    · exact hne
-    · rcases encode4_rows m (segments m) (fun p hp => (hd.gid p hp).2) hne with htrap | ⟨rows, g, hok, _⟩
-      · rw [createFormat4, htrap] at h; cases h
-      · rw [createFormat4, hok] at h; cases h
-  · intro h
-    unfold createFormat4 encode4
-    have e1 : (m.any fun p => decide (p.2 > 0xFFFF)) = false := by
-      rw [List.any_eq_false]
-      intro p hp
-      have := (hd.gid p hp).2
-      simp; omega
-    simp [e1, h]
+    createFormat4 m = .ok none ↔ ∀ p ∈ m, p.1 > 0xFFFF :=
+  createFormat4_none_iff m hd
 
 /-- building succeeds: for an in-domain mapping with between 1 and 6551 BMP characters
 (10·n + 24 ≤ 65535: what a 16-bit format-4 length can always hold) `create_format_4` returns a
 table, and that table's `compute_length` fits 16 bits -/
 theorem fmt4_build_succeeds (m : Mapping) (hd : InDomain m) (hne : bmpPrefix m ≠ [])
-    (hn : (bmpPrefix m).length ≤ 6551) : ∃ t, createFormat4 m = .ok (some t) ∧ t.lengthFits = true := by
-  have hsegs : segments m ≠ [] := by
-    unfold segments
-    rw [Ne, computeSegs_nil_iff]
-    simpa using hne
-  exact encode4_ok m (segments m) _ (fun p hp => (hd.gid p hp).2) (segments_valid m) hn hsegs
+    (hn : (bmpPrefix m).length ≤ 6551) : ∃ t, createFormat4 m = .ok (some t) ∧ t.lengthFits = true :=
+  createFormat4_ok m hd hne hn
 
 /-- non-vacuity: the doc-comment example of `should_combine` (three segments merged into one
 range-offset segment), a delta segment whose delta does not fit `i16`, a lone character, and a
@@ -210,5 +147,134 @@ example : createFormat4 [(1, 3), (2, 1), (3, 4), (4, 5), (5, 6), (6, 7), (7, 8),
     .ok (some { endCode := #[9, 33, 0x5000, 0xFFFF], startCode := #[1, 32, 0x5000, 0xFFFF],
                 idDelta := #[0, -25568, -20473, 1], idRangeOffsets := #[8, 0, 0, 0],
                 glyphIdArray := #[3, 1, 4, 5, 6, 7, 8, 2, 9] }) := by decide
+
+/-- enumerating (`Cmap4::iter`) the table compiled from ANY valid segmentation yields exactly the
+BMP pairs of the mapping, in ascending character order, followed by the `(U+FFFF, glyph 0)` item
+of the mandatory final segment -/
+theorem fmt4_iter_any_segmentation (m : Mapping) (hd : InDomain m) (segs : List Seg)
+    (hv : SegsTile (cpAt m.toArray) (gidAt m.toArray) 0 (bmpPrefix m).length segs)
+    (t : Cmap4) (h : encode4 m segs = .ok (some t)) :
+    iter4 t = m.filter (fun p => decide (p.1 ≤ 0xFFFF)) ++ [(0xFFFF, 0)] := by
+  rw [encode4_iter m hd segs hv t h, bmpPrefix_eq_filter m hd.asc]
+
+/-- … in particular for the table `create_format_4` builds -/
+theorem fmt4_iter (m : Mapping) (hd : InDomain m) (t : Cmap4) (h : createFormat4 m = .ok (some t)) :
+    iter4 t = m.filter (fun p => decide (p.1 ≤ 0xFFFF)) ++ [(0xFFFF, 0)] :=
+  fmt4_iter_any_segmentation m hd (segments m) (segments_valid m) t h
+
+example : iter4 { endCode := #[9, 33, 0x5000, 0xFFFF], startCode := #[1, 32, 0x5000, 0xFFFF],
+                  idDelta := #[0, -25568, -20473, 1], idRangeOffsets := #[8, 0, 0, 0],
+                  glyphIdArray := #[3, 1, 4, 5, 6, 7, 8, 2, 9] } =
+    [(1, 3), (2, 1), (3, 4), (4, 5), (5, 6), (6, 7), (7, 8), (8, 2), (9, 9),
+     (32, 40000), (33, 40001), (0x5000, 7), (0xFFFF, 0)] := by decide
+
+/-! ### `Cmap::from_mappings` end to end: normalisation, conflicts, table and `Charmap` level -/
+
+/-- sorting and deduplicating keeps exactly the input pairs, and for a conflict-free input the
+result has strictly ascending code points (each character once) -/
+theorem normalize_spec (raw : Mapping) :
+    (∀ p, p ∈ normalize raw ↔ p ∈ raw) ∧ (ConflictFree raw → Ascending (normalize raw)) :=
+  ⟨mem_normalize raw, fun hcf =>
+    (findConflict_none_iff _ (normalize_sorted raw)).1 ((findConflict_normalize_none_iff raw).2 hcf)⟩
+
+/-- conflicts are errors, and only conflicts: `from_mappings` returns `Err(CmapConflict)` exactly
+when some character is given two different glyphs, and the reported pair is a genuine conflict of
+the input with `gid1 < gid2` -/
+theorem conflict_is_error (raw : Mapping) :
+    ((∃ c g1 g2, fromMappings raw = .conflict c g1 g2) ↔ ¬ ConflictFree raw) ∧
+    (∀ c g1 g2, fromMappings raw = .conflict c g1 g2 → (c, g1) ∈ raw ∧ (c, g2) ∈ raw ∧ g1 < g2) := by
+  have key : ∀ c g1 g2, fromMappings raw = .conflict c g1 g2 →
+      findConflict (normalize raw) = some (c, g1, g2) := by
+    intro c g1 g2 h
+    unfold fromMappings at h
+    cases hf : findConflict (normalize raw) with
+    | some r =>
+      obtain ⟨c', a, b⟩ := r
+      simp only [hf] at h
+      injection h with h1 h2 h3
+      subst h1 h2 h3
+      rfl
+    | none =>
+      exfalso
+      simp only [hf] at h
+      cases h4 : createFormat4 (normalize raw) with
+      | trap => simp [h4] at h
+      | ok f4 =>
+        cases h12 : buildFormat12 (normalize raw) with
+        | none => simp [h4, h12] at h
+        | some f12 =>
+          simp only [h4, h12] at h
+          cases f4 with
+          | none => simp at h
+          | some t => by_cases ht : t.lengthFits = true <;> simp [ht] at h
+  have detail : ∀ c g1 g2, fromMappings raw = .conflict c g1 g2 →
+      (c, g1) ∈ raw ∧ (c, g2) ∈ raw ∧ g1 < g2 := by
+    intro c g1 g2 h
+    obtain ⟨h1, h2, h3⟩ := findConflict_some _ c g1 g2 (key c g1 g2 h)
+    exact ⟨(mem_normalize raw _).1 h1, (mem_normalize raw _).1 h2, h3⟩
+  refine ⟨⟨?_, ?_⟩, detail⟩
+  · rintro ⟨c, g1, g2, h⟩ hcf
+    obtain ⟨h1, h2, h3⟩ := detail c g1 g2 h
+    have := hcf _ h1 _ h2 rfl
+    simp only at this
+    omega
+  · intro hncf
+    cases hf : findConflict (normalize raw) with
+    | none => exact absurd ((findConflict_normalize_none_iff raw).1 hf) hncf
+    | some r =>
+      obtain ⟨c, g1, g2⟩ := r
+      refine ⟨c, g1, g2, ?_⟩
+      unfold fromMappings
+      simp only [hf]
+
+/-- THE round trip.  For every conflict-free list of (character, glyph) pairs — any order,
+duplicates allowed — with characters in U+0000..U+10FFFF except U+FFFF, glyph ids in 1..=0xFFFF and
+at most 6551 pairs (so that format 4 cannot overflow its 16-bit length), `Cmap::from_mappings`
+followed by `dump_table` succeeds, and on the built table
+* `Cmap::map_codepoint` (first subtable that answers, in record order) returns `some v` for `c`
+  exactly when `(c, v)` is an input pair — or `c` is U+FFFF and a format-4 subtable exists, which
+  answers the missing-glyph id 0 there;
+* skrifa's `Charmap::map` (subtable selection + notdef filtering) returns `some v` exactly when
+  `(c, v)` is an input pair, `none` for every other code point;
+* skrifa's `Charmap::mappings` (with the font's `Cmap12IterLimits`, every glyph id below
+  `numGlyphs`) enumerates exactly the input pairs, each once, in ascending character order. -/
+theorem from_mappings_roundtrip (raw : Mapping) (hcf : ConflictFree raw)
+    (hr : ∀ p ∈ raw, p.1 ≤ 0x10FFFF ∧ p.1 ≠ 0xFFFF ∧ 1 ≤ p.2 ∧ p.2 ≤ 0xFFFF)
+    (hn : raw.length ≤ 6551) :
+    ∃ b, fromMappings raw = .ok b ∧
+      (∀ c v, c < 4294967296 →
+        (cmapMap b.subtables c = some v ↔ (c, v) ∈ raw ∨ (c = 0xFFFF ∧ v = 0 ∧ ∃ p ∈ raw, p.1 ≤ 0xFFFF))) ∧
+      (∀ c v, c < 4294967296 → (b.skMap c = some v ↔ (c, v) ∈ raw)) ∧
+      (∀ numGlyphs, (∀ p ∈ raw, p.2 < numGlyphs) →
+        b.skMappings (0x10FFFF, numGlyphs) = normalize raw ∧ Ascending (normalize raw) ∧
+        ∀ p, p ∈ normalize raw ↔ p ∈ raw) := by
+  have hd := normalize_inDomain raw hcf hr
+  have hlen : (bmpPrefix (normalize raw)).length ≤ 6551 := by
+    have h1 := normalize_length_le raw
+    rcases Nat.lt_or_ge (normalize raw).length (bmpPrefix (normalize raw)).length with h | h
+    · have := (bmpPrefix_getElem? (normalize raw) (normalize raw).length h).2
+      omega
+    · omega
+  obtain ⟨b, hb, hs⟩ := fromMappings_ok raw hd hlen
+  refine ⟨b, hb, ?_, ?_, ?_⟩
+  · intro c v hc
+    rw [cmapMap_built _ hd b hs c v hc, mem_normalize]
+    have : HasBmp (normalize raw) ↔ ∃ p ∈ raw, p.1 ≤ 0xFFFF := by
+      unfold HasBmp
+      constructor
+      · rintro ⟨p, hp, h⟩; exact ⟨p, (mem_normalize raw p).1 hp, h⟩
+      · rintro ⟨p, hp, h⟩; exact ⟨p, (mem_normalize raw p).2 hp, h⟩
+    rw [this]
+  · intro c v hc
+    rw [skMap_built _ hd b hs c v hc, mem_normalize]
+  · intro ng hng
+    exact ⟨skMappings_built _ hd b hs ng (fun p hp => hng p ((mem_normalize raw p).1 hp)), hd.asc,
+      mem_normalize raw⟩
+
+/-- non-vacuity: shuffled input with a duplicate, BMP and supplementary characters -/
+example : ConflictFree [(0x1F600, 10), (66, 6), (65, 5), (66, 6), (0x4E00, 40000)] := by
+  unfold ConflictFree; decide
+example : findConflict (dedup [(65, 1), (65, 3), (66, 2), (66, 2)]) = some (65, 1, 3) := by decide
+example : ¬ ConflictFree [(65, 1), (66, 2), (65, 3)] := by unfold ConflictFree; decide
 
 end FontVerif.C08
